@@ -203,6 +203,50 @@ func H_C15_relay() {
 	}
 }
 
+// two requests in flight at once (the second is served while the first one's handler is still running):
+// their records pair up by ID
+func H_C15_overlap() {
+	lg := &c15Log{threshold: LevelInfo}
+	l := New(lg)
+	mux := httpd.NewMux()
+	mux.HandleRelay(l.Relay)
+	inner := vxPick(3) // what the inner request does
+	mux.Handle("/fast", http.MethodGet, func(s *httpd.Store) {
+		if inner == 1 {
+			s.W.WriteHeader(vxInt(200, 599))
+		} else if inner == 2 {
+			panic("inner boom")
+		}
+	})
+	mux.Handle("/slow", http.MethodGet, func(s *httpd.Store) {
+		before := s.GetID()
+		w2 := &c15W{}
+		mux.ServeHTTP(w2, &http.Request{Method: http.MethodGet, URL: &url.URL{Path: "/fast"}, RequestURI: "/fast", RemoteAddr: "10.0.0.2:2"})
+		vxAssert(s.GetID() == before, "C15: a request's ID changed while another request was served")
+		s.W.WriteHeader(201)
+	})
+	w := &c15W{}
+	mux.ServeHTTP(w, &http.Request{Method: http.MethodGet, URL: &url.URL{Path: "/slow"}, RequestURI: "/slow", RemoteAddr: "10.0.0.1:1"})
+	// records: BEG(slow) BEG(fast) [ERR(fast)] END(fast) END(slow)
+	tid := func(r c15Rec) string { return r.attrs["tid"].String() }
+	var slow, fast []c15Rec
+	for _, r := range lg.recs {
+		if r.level != LevelInfo {
+			continue
+		}
+		if r.attrs["path"].String() == "/slow" {
+			slow = append(slow, r)
+		} else {
+			fast = append(fast, r)
+		}
+	}
+	vxAssert(len(slow) == 2 && len(fast) == 2, "C15: overlapping requests did not each produce one REQ_BEG and one REQ_END")
+	vxAssert(tid(slow[0]) == tid(slow[1]) && tid(fast[0]) == tid(fast[1]), "C15: REQ_BEG and REQ_END of a request carry different IDs when requests overlap")
+	vxAssert(tid(slow[0]) != tid(fast[0]), "C15: two requests in flight share an ID")
+	vxAssert(int(slow[1].attrs["code"].Int64()) == 201, "C15: outer request's logged status is wrong")
+	vxReach("overlapping requests")
+}
+
 // http.ErrAbortHandler is outside the claim; it must at least not crash the harness
 func H_C15_vacuity() {
 	lg := &c15Log{threshold: LevelInfo}
